@@ -312,6 +312,7 @@ def _check_lexer(ctx, ptab, parser):
 
 
 def _check_whole_input(ctx, model):
+    _check_parser_stateless(ctx, model)
     owner, fn = model.require_method(f"{PARSER}:Parser", "__call__")
     loc = owner.module.loc(fn)
     pss = summarize(fn, node_param=False)
@@ -373,6 +374,73 @@ def _check_whole_input(ctx, model):
     ctx.ob("P/Parser.__call__/only-whitespace-dropped", ok, loc,
            "only whitespace tokens are dropped" if ok else
            "the token filter in Parser.__call__ drops more than whitespace")
+
+
+def _check_parser_stateless(ctx, model):
+    """The module-level `parse` is one Parser instance serving every call, and
+    the statement quantifies over every string after every history of earlier
+    strings (accepted or rejected).  A parsing method that writes an attribute
+    of the parser therefore must restore it on *every* way out, the exceptional
+    ones included (a parse error leaves through a raise): the write has to sit
+    in, or directly in front of, a try statement whose finally clause writes
+    the attribute back."""
+    pc = model.cls(f"{PARSER}:Parser")
+    n_methods = 0
+    for c in [pc] + model.subclasses(pc):
+        for name, mem in c.members.items():
+            if mem.kind != "func" or name == "__init__":
+                continue
+            n_methods += 1
+            fn = mem.node
+            writes = []
+            for n in ast.walk(fn):
+                tgts = []
+                if isinstance(n, ast.Assign):
+                    tgts = n.targets
+                elif isinstance(n, (ast.AugAssign, ast.AnnAssign)):
+                    tgts = [n.target]
+                for t in tgts:
+                    for x in ast.walk(t):
+                        if isinstance(x, ast.Attribute) and isinstance(
+                                x.value, ast.Name) and x.value.id == "self" \
+                                and isinstance(x.ctx, ast.Store):
+                            writes.append((n, x.attr))
+            if not writes:
+                continue
+            tries = [t for t in ast.walk(fn) if isinstance(t, ast.Try)
+                     and t.finalbody]
+
+            def restored(stmt, attr):
+                for t in tries:
+                    fin = {x.attr for fs in t.finalbody for x in ast.walk(fs)
+                           if isinstance(x, ast.Attribute) and isinstance(
+                               x.value, ast.Name) and x.value.id == "self"
+                           and isinstance(x.ctx, ast.Store)}
+                    if attr not in fin:
+                        continue
+                    if any(stmt is x for fs in t.finalbody for x in ast.walk(fs)):
+                        return True
+                    if any(stmt is x for bs in t.body for x in ast.walk(bs)):
+                        return True
+                    # the statement right in front of the try
+                    par = c.module.parent(t)
+                    for fld in ("body", "orelse", "finalbody"):
+                        blk = getattr(par, fld, None)
+                        if isinstance(blk, list) and t in blk:
+                            i = blk.index(t)
+                            if i > 0 and blk[i - 1] is stmt:
+                                return True
+                return False
+            bad = sorted({a for st, a in writes if not restored(st, a)})
+            ctx.ob(f"O/parser/{c.name}.{name}/no-state-kept-between-parses",
+                   not bad, c.module.loc(fn),
+                   f"{c.name}.{name} writes self.{', self.'.join(bad)} and does "
+                   "not restore it in a finally clause: a parse that ends in an "
+                   "error (or any other exception) leaves the value behind in "
+                   "the shared parser object, and later strings are read "
+                   "differently from the same string in a fresh process" if bad
+                   else f"{c.name}.{name} restores what it writes on every exit")
+    ctx.floor("parser methods scanned for state", n_methods, 6)
 
 
 def _judge_arglist(model, fn, tree, max_len, full_len=4):
